@@ -1,7 +1,7 @@
 import GeffModel.PartialRead
-/-! # Run-time library for the source-translated reader (`harness/translators/t15_pydo_base_read.py`)
+/-! # Run-time library for the source-translated reader (`harness/translators/t20_pydo_base_read.py`)
 
-The translator T15 turns `GeffReader._mask_to_indices`, `_load_zarr_subset`, `_load_prop_to_memory`,
+The translator T20 turns `GeffReader._mask_to_indices`, `_load_zarr_subset`, `_load_prop_to_memory`,
 `build`, `read_node_props`, `read_edge_props` and `read_to_memory` of
 `geff/core_io/_base_read.py` statement by statement into Lean `do`-notation
 (`Gen/BaseRead.lean`).  Everything the generated code calls is defined here, from the store / array
